@@ -149,6 +149,87 @@ VF_INL SN(__m256d) SN(_mm256_or_pd)(SN(__m256d) a, SN(__m256d) b) {
   for (int i = 0; i < 4; ++i) r.d[i] = vf_u2d(vf_d2u(a.d[i]) | vf_d2u(b.d[i]));
   return r;
 }
+VF_INL SN(__m256d) SN(_mm256_andnot_pd)(SN(__m256d) a, SN(__m256d) b) {
+  SN(__m256d) r;
+  for (int i = 0; i < 4; ++i) r.d[i] = vf_u2d(~vf_d2u(a.d[i]) & vf_d2u(b.d[i]));
+  return r;
+}
+/* comparison predicates of _mm256_cmp_pd (the quiet / signalling distinction has no observable effect here) */
+#ifndef SHIM_PREFIXED
+#define _CMP_EQ_OQ 0x00
+#define _CMP_LT_OS 0x01
+#define _CMP_LE_OS 0x02
+#define _CMP_UNORD_Q 0x03
+#define _CMP_NEQ_UQ 0x04
+#define _CMP_NLT_US 0x05
+#define _CMP_NLE_US 0x06
+#define _CMP_ORD_Q 0x07
+#define _CMP_EQ_UQ 0x08
+#define _CMP_NGE_US 0x09
+#define _CMP_NGT_US 0x0a
+#define _CMP_FALSE_OQ 0x0b
+#define _CMP_NEQ_OQ 0x0c
+#define _CMP_GE_OS 0x0d
+#define _CMP_GT_OS 0x0e
+#define _CMP_TRUE_UQ 0x0f
+#define _CMP_EQ_OS 0x10
+#define _CMP_LT_OQ 0x11
+#define _CMP_LE_OQ 0x12
+#define _CMP_UNORD_S 0x13
+#define _CMP_NEQ_US 0x14
+#define _CMP_NLT_UQ 0x15
+#define _CMP_NLE_UQ 0x16
+#define _CMP_ORD_S 0x17
+#define _CMP_EQ_US 0x18
+#define _CMP_NGE_UQ 0x19
+#define _CMP_NGT_UQ 0x1a
+#define _CMP_FALSE_OS 0x1b
+#define _CMP_NEQ_OS 0x1c
+#define _CMP_GE_OQ 0x1d
+#define _CMP_GT_OQ 0x1e
+#define _CMP_TRUE_US 0x1f
+#endif
+VF_INL int vf_cmp_pred(double x, double y, int imm) {
+  const int un = (x != x) || (y != y);
+  switch (imm & 15) {
+    case 0: return !un && x == y;
+    case 1: return !un && x < y;
+    case 2: return !un && x <= y;
+    case 3: return un;
+    case 4: return un || x != y;
+    case 5: return un || !(x < y);
+    case 6: return un || !(x <= y);
+    case 7: return !un;
+    case 8: return un || x == y;
+    case 9: return un || !(x >= y);
+    case 10: return un || !(x > y);
+    case 11: return 0;
+    case 12: return !un && x != y;
+    case 13: return !un && x >= y;
+    case 14: return !un && x > y;
+    default: return 1;
+  }
+}
+VF_INL SN(__m256d) SN(_mm256_cmp_pd)(SN(__m256d) a, SN(__m256d) b, int imm) {
+  SN(__m256d) r;
+  for (int i = 0; i < 4; ++i) r.d[i] = vf_u2d(vf_cmp_pred(a.d[i], b.d[i], imm) ? ~UINT64_C(0) : 0);
+  return r;
+}
+VF_INL SN(__m256d) SN(_mm256_blendv_pd)(SN(__m256d) a, SN(__m256d) b, SN(__m256d) mask) {
+  SN(__m256d) r;
+  for (int i = 0; i < 4; ++i) r.d[i] = (vf_d2u(mask.d[i]) >> 63) ? b.d[i] : a.d[i];
+  return r;
+}
+VF_INL SN(__m256d) SN(_mm256_max_pd)(SN(__m256d) a, SN(__m256d) b) {
+  SN(__m256d) r; /* x86 semantics: the second operand unless a > b (NaN in either operand or equal values: b) */
+  for (int i = 0; i < 4; ++i) r.d[i] = a.d[i] > b.d[i] ? a.d[i] : b.d[i];
+  return r;
+}
+VF_INL SN(__m256d) SN(_mm256_min_pd)(SN(__m256d) a, SN(__m256d) b) {
+  SN(__m256d) r;
+  for (int i = 0; i < 4; ++i) r.d[i] = a.d[i] < b.d[i] ? a.d[i] : b.d[i];
+  return r;
+}
 VF_INL SN(__m256d) SN(_mm256_xor_pd)(SN(__m256d) a, SN(__m256d) b) {
   SN(__m256d) r;
   for (int i = 0; i < 4; ++i) r.d[i] = vf_u2d(vf_d2u(a.d[i]) ^ vf_d2u(b.d[i]));
